@@ -57,10 +57,10 @@ check("C20", "enum",
       "siphash/murmur written independently; large-N filters use fixed deterministic element lists.",
       "DESIGN.md §4 C20")
 
-check("C04", "crashdb",
-      "crash-point enumeration: for every durable commit k of each workload (and, nested, every commit j of the recovery) the process dies, the store is reopened by the real blockchain.New and compared with the naive fold",
-      "Workloads (extension with spends and re-created txids, reorganisation there and back, invalid block, pruning with tiny block files) x three utxo-cache sizes; after each reopen: no error, tip previously active, full UTXO universe == fold of the tip's chain, acknowledged blocks still known, re-feeding converges to the uninterrupted run.",
-      "Crashes are placed between db.Update commits (ffldb's own prefix durability is C05's subject); depth-2 nesting; known finding: stored-but-unconnected block after a crash between store and connect commits.",
+check("C04", "crashdb+crash-images",
+      "crash-point enumeration: (1) for every durable commit k of each workload (and, nested, every commit j of the recovery, also with a different cache size on restart) the process dies and the store is reopened; (2) for every prefix of the block-file I/O log x subsets of unsynced writes lost x torn last write x flush regime, the crash image is reopened through ffldb reconcile + blockchain.New; both compared with the naive fold",
+      "Workloads (extension with spends and re-created txids, reorganisation there and back, invalid block, pruning with tiny block files) x utxo-cache sizes; after each reopen: no error, tip previously active, full UTXO universe == fold of the tip's chain, acknowledged blocks still known, re-feeding converges to the uninterrupted run.",
+      "goleveldb atomic/durable per commit; only bytes not covered by a later Sync may be lost or torn; subset caps reported; known findings: stored-but-unconnected block after a crash between store and connect commits; node cannot restart after a crash during pruning (files deleted before the metadata is durable).",
       "DESIGN.md §4 C04")
 check("C07", "enum",
       "exhaustive enumeration of tx shapes x input index x every one-byte hash type x script codes x annex/codesep variants against independent legacy/BIP143/BIP341 digests; signer round trips and per-field commitment mutations through the real engine",
